@@ -19,6 +19,7 @@ package main
 
 import (
 	"fmt"
+	"runtime"
 	"sort"
 	"strings"
 
@@ -96,376 +97,463 @@ func stepClass(a int64) string {
 }
 
 func secRotationFine(c *vlib.Ctx, n int) {
-	c.Cases("rotation-fine", n, func(i int, r *vlib.Rand) {
-		day0 := randDay(r)
-		mid := (day0 + 1) * dayMs
-		d := drawBeforeMidnight(r)
-		// the logger is created `lead` ms before the start instant (creating it takes real time)
-		lead := int64(pickInt(r, 0, 0, 0, 2000, 30000, 59000, 61000, 300000))
-		if d < 3000 && lead == 0 {
-			lead = int64(pickInt(r, 2000, 5000, 30000))
-		}
-		setVirtual(mid - d - lead)
-		s := newScn(c, r)
-		defer s.close()
-		s.useApply = r.Chance(3, 4)
-		if s.useApply {
-			s.interval = pickInt(r, 0, 0, 10)
-			s.rot = !r.Chance(1, 6)
-			s.keep = pickInt(r, 0, -1, 20000, 20000, 20000, r.Range(1, 12), r.Range(1, 12), r.Range(1, 400))
-		}
-		allowBack := r.Chance(1, 3)
-		nSteps := r.Range(1, 5)
-		s.start()
+	c.Cases("rotation-fine", n, func(i int, r *vlib.Rand) { fineScenario(c, "rotation-fine", i, r, false) })
+}
 
-		name := func(day int64) string { return logName(s.id, s.oname, s.rot, day) }
-		visited := map[int64]bool{}
-		everNames := map[string]bool{logName(s.id, s.oname, true, day0): true} // the constructor opens a dated file first
-		tracked := map[string]int64{logName(s.id, s.oname, true, day0): day0}   // own dated files known to exist → their day
-		visit := func(t int64) {
-			dd := dayOf(t)
-			visited[dd] = true
-			everNames[name(dd)] = true
-		}
-		visitedDays := func() []int64 {
-			var out []int64
-			for dd := range visited {
-				out = append(out, dd)
-			}
-			sort.Slice(out, func(a, b int) bool { return out[a] < out[b] })
-			return out
-		}
-		allowedNames := func() []string {
-			seen := map[string]bool{}
-			var out []string
-			for _, dd := range visitedDays() {
-				if nm := name(dd); !seen[nm] {
-					seen[nm] = true
-					out = append(out, nm)
-				}
-			}
-			return out
-		}
-		visit(mid - d - lead)
-		visit(vnow())
-		if dayOf(vnow()) != day0 {
-			everNames[logName(s.id, s.oname, true, dayOf(vnow()))] = true
-		}
+// secRotationConstruct: the date changes right after the constructor has returned (possibly
+// before the logger's own goroutine has executed its first statement), then cycle, then lines.
+func secRotationConstruct(c *vlib.Ctx, n int) {
+	c.Cases("rotation-construct", n, func(i int, r *vlib.Rand) { fineScenario(c, "rotation-construct", i, r, true) })
+}
 
-		var calls []*call
-		allowed := map[*call][]string{}
-		afterCycle := map[*call]bool{}
-		seq := 0
-		cycles := 0
-		batch := func(k int) {
-			for j := 0; j < k; j++ {
-				ep := r.Intn(nEP)
-				id := fmt.Sprintf("WF%08d", seq) // unique id per line: the rate limiter never applies
-				cl := buildCall(r, 0, seq, ep, id)
-				cl.Lvl = s.level
-				seq++
-				cl.B = vnow()
-				visit(cl.B)
-				cl.invoke(s.fl)
-				cl.A = vnow()
-				visit(cl.A)
-				calls = append(calls, cl)
-				allowed[cl] = allowedNames()
-				afterCycle[cl] = cycles > 0
-			}
-		}
+// keyNewborn is the key of rotation failures in scenarios in which the date changed between the
+// constructor opening the first file and the end of the logger's start-up.
+const keyNewborn = "FileLogger:rotation/date-changed-right-after-creation"
 
-		var stepLog []map[string]interface{}
-		var plan []string
-		files := map[string]string{}
-		hadBack := false
-		detail := func() map[string]interface{} {
-			return map[string]interface{}{"logger": s.desc(), "created_on": ymdOfDay(day0), "created_ms_before_midnight": d + lead,
-				"start_instant_ms_before_midnight": d, "steps": stepLog, "files_in_logs": sortedKeys(files), "calls": briefCalls(calls, 60)}
+func fineScenario(c *vlib.Ctx, section string, i int, r *vlib.Rand, construct bool) {
+	day0 := randDay(r)
+	mid := (day0 + 1) * dayMs
+	d := drawBeforeMidnight(r)
+	// the logger is created `lead` ms before the start instant; creating it takes real time
+	// (seconds on a loaded machine), so it is never created less than 10 s before midnight
+	lead := int64(pickInt(r, 0, 0, 0, 2000, 30000, 59000, 61000, 300000))
+	if d+lead < 10000 {
+		lead = int64(pickInt(r, 10000, 15000, 30000))
+	}
+	jumpTo, procs1 := int64(-1), false
+	if construct {
+		d, lead = int64(pickInt(r, 200, 500, 1000, 2000, 5000, 30000, r.Range(200, 30000), r.Range(200, 30000))), 0
+		over := int64(pickInt(r, 0, 1, r.Range(2, 50), r.Range(1000, 10000), r.Range(10000, 59000), 59999, 60001,
+			r.Range(60100, 3600*1000), r.Range(3600*1000, int(dayMs)-1)))
+		if r.Chance(1, 6) {
+			over += int64(r.Range(1, 400)) * dayMs
 		}
-		rotKey := func() string {
-			if hadBack {
-				return "FileLogger:rotation/clock-stepped-back"
-			}
-			return "FileLogger:rotation"
+		jumpTo = mid + over
+		procs1 = r.Chance(3, 4)
+	}
+	setVirtual(mid - d - lead)
+	s := newScn(c, r)
+	defer s.close()
+	s.useApply = r.Chance(3, 4)
+	if s.useApply {
+		s.interval = pickInt(r, 0, 0, 10)
+		s.rot = !r.Chance(1, 6)
+		s.keep = pickInt(r, 0, -1, 20000, 20000, 20000, r.Range(1, 12), r.Range(1, 12), r.Range(1, 400))
+	}
+	allowBack := r.Chance(1, 3)
+	nSteps := r.Range(1, 5)
+	if construct {
+		nSteps = r.Range(1, 3)
+		s.afterNew = func() { setVirtual(jumpTo) }
+	}
+	oldProcs := 0
+	restoreProcs := func() {
+		if oldProcs > 0 {
+			runtime.GOMAXPROCS(oldProcs)
+			oldProcs = 0
 		}
-		expired := func(age int64) bool { // may retention have removed an own dated file of this age?
-			if s.keep > 0 {
-				return age > int64(s.keep)
-			}
-			return age > 0
-		}
+	}
+	defer restoreProcs()
+	if procs1 {
+		// one P: the logger's goroutine has not run yet when the constructor returns
+		oldProcs = runtime.GOMAXPROCS(1)
+	}
+	s.start()
+	restoreProcs()
 
-		judged := 0
-		lastLine := map[string]int{}
-		judge := func() {
-			s.locate(files, calls, detail)
-			for nm := range lastLine {
-				if _, ok := files[nm]; !ok {
-					delete(lastLine, nm)
-				}
+	name := func(day int64) string { return logName(s.id, s.oname, s.rot, day) }
+	visited := map[int64]bool{}
+	everNames := map[string]bool{logName(s.id, s.oname, true, day0): true} // the constructor opens a dated file first
+	tracked := map[string]int64{logName(s.id, s.oname, true, day0): day0}  // own dated files known to exist → their day
+	visit := func(t int64) {
+		dd := dayOf(t)
+		visited[dd] = true
+		everNames[name(dd)] = true
+	}
+	visitedDays := func() []int64 {
+		var out []int64
+		for dd := range visited {
+			out = append(out, dd)
+		}
+		sort.Slice(out, func(a, b int) bool { return out[a] < out[b] })
+		return out
+	}
+	allowedNames := func() []string {
+		seen := map[string]bool{}
+		var out []string
+		for _, dd := range visitedDays() {
+			if nm := name(dd); !seen[nm] {
+				seen[nm] = true
+				out = append(out, nm)
 			}
-			for _, cl := range calls[judged:] {
-				names := allowed[cl]
-				if s.gated(cl) {
-					c.Count("calls_below_level", 1)
-					if cl.present {
-						dd := detail()
-						dd["call"] = cl.brief()
-						c.Fail("FileLogger:level-gate", fmt.Sprintf("%s line written although the level is %s", epName[cl.EP], rankName[cl.Lvl]), dd)
-					}
-					continue
-				}
-				if !cl.present {
-					gone := false
-					for _, nm := range names {
-						if _, ok := files[nm]; !ok {
-							gone = true
-						}
-					}
-					if gone {
-						continue // one of its possible files was pruned in this very cycle
-					}
-					key := "FileLogger:line-lost"
-					if len(names) > 1 {
-						key = "FileLogger:line-lost/rotation-window"
-					}
-					dd := detail()
-					dd["call"], dd["allowed_files"] = cl.brief(), names
-					c.Fail(key, fmt.Sprintf("%s line is in none of %v", epName[cl.EP], names), dd)
-					continue
-				}
-				okFile := false
-				for _, nm := range names {
-					if nm == cl.file {
-						okFile = true
-					}
-				}
-				if !okFile {
-					dd := detail()
-					dd["call"], dd["allowed_files"] = cl.brief(), names
-					c.Fail(rotKey(), fmt.Sprintf("line logged after the cycle is in %q, not in %v (file of the current virtual date)", cl.file, names), dd)
-					continue
-				}
-				if len(names) == 1 && afterCycle[cl] && s.rot {
-					c.Count("fine_lines_after_cycle_in_current_file", 1)
-				}
-				if cl.line <= lastLine[cl.file] {
+		}
+		return out
+	}
+	visit(mid - d - lead)
+	if construct {
+		visit(jumpTo)
+	}
+	visit(vnow())
+	for dd := range visited {
+		everNames[logName(s.id, s.oname, true, dd)] = true
+	}
+	// the date changed while the logger was being created (deliberately, or because creating
+	// it took longer than the distance to midnight)
+	newborn := len(visited) > 1
+	if s.useApply {
+		// until ApplyConfig the logger ran with the default keep-days (7): a cycle of its own
+		// goroutine during start-up may already have pruned the constructor's file
+		for dd := range visited {
+			if dd-day0 > 7 {
+				delete(tracked, logName(s.id, s.oname, true, day0))
+			}
+		}
+	}
+	if newborn && !construct {
+		c.Count("fine_scenarios_date_changed_during_creation", 1)
+	}
+
+	var calls []*call
+	allowed := map[*call][]string{}
+	afterCycle := map[*call]bool{}
+	seq := 0
+	cycles := 0
+	batch := func(k int) {
+		for j := 0; j < k; j++ {
+			ep := r.Intn(nEP)
+			id := fmt.Sprintf("WF%08d", seq) // unique id per line: the rate limiter never applies
+			cl := buildCall(r, 0, seq, ep, id)
+			cl.Lvl = s.level
+			seq++
+			cl.B = vnow()
+			visit(cl.B)
+			cl.invoke(s.fl)
+			cl.A = vnow()
+			visit(cl.A)
+			calls = append(calls, cl)
+			allowed[cl] = allowedNames()
+			afterCycle[cl] = cycles > 0
+		}
+	}
+
+	var stepLog []map[string]interface{}
+	var plan []string
+	files := map[string]string{}
+	hadBack := false
+	detail := func() map[string]interface{} {
+		m := map[string]interface{}{"logger": s.desc(), "created_on": ymdOfDay(day0), "created_ms_before_midnight": d + lead,
+			"start_instant_ms_before_midnight": d, "steps": stepLog, "files_in_logs": sortedKeys(files), "calls": briefCalls(calls, 60)}
+		if construct {
+			m["clock_set_right_after_constructor_returned_to_ms_after_midnight"] = jumpTo - mid
+			m["one_P_while_creating"] = procs1
+		}
+		if newborn {
+			m["date_changed_while_logger_was_created"] = true
+		}
+		return m
+	}
+	rotKey := func() string {
+		if newborn {
+			return keyNewborn
+		}
+		if hadBack {
+			return "FileLogger:rotation/clock-stepped-back"
+		}
+		return "FileLogger:rotation"
+	}
+	expired := func(age int64) bool { // may retention have removed an own dated file of this age?
+		if s.keep > 0 {
+			return age > int64(s.keep)
+		}
+		return age > 0
+	}
+
+	judged := 0
+	lastLine := map[string]int{}
+	judge := func() {
+		s.locate(files, calls, detail)
+		for nm := range lastLine {
+			if _, ok := files[nm]; !ok {
+				delete(lastLine, nm)
+			}
+		}
+		for _, cl := range calls[judged:] {
+			names := allowed[cl]
+			if s.gated(cl) {
+				c.Count("calls_below_level", 1)
+				if cl.present {
 					dd := detail()
 					dd["call"] = cl.brief()
-					c.Fail("FileLogger:order", "a later call's line precedes an earlier call's line in the same file", dd)
+					c.Fail("FileLogger:level-gate", fmt.Sprintf("%s line written although the level is %s", epName[cl.EP], rankName[cl.Lvl]), dd)
 				}
-				lastLine[cl.file] = cl.line
+				continue
 			}
-			judged = len(calls)
+			if !cl.present {
+				gone := false
+				for _, nm := range names {
+					if _, ok := files[nm]; !ok {
+						gone = true
+					}
+				}
+				if gone {
+					continue // one of its possible files was pruned in this very cycle
+				}
+				key := "FileLogger:line-lost"
+				if len(names) > 1 {
+					key = "FileLogger:line-lost/rotation-window"
+				}
+				dd := detail()
+				dd["call"], dd["allowed_files"] = cl.brief(), names
+				c.Fail(key, fmt.Sprintf("%s line is in none of %v", epName[cl.EP], names), dd)
+				continue
+			}
+			okFile := false
+			for _, nm := range names {
+				if nm == cl.file {
+					okFile = true
+				}
+			}
+			if !okFile {
+				dd := detail()
+				dd["call"], dd["allowed_files"] = cl.brief(), names
+				c.Fail(rotKey(), fmt.Sprintf("line logged after the cycle is in %q, not in %v (file of the current virtual date)", cl.file, names), dd)
+				continue
+			}
+			if len(names) == 1 && afterCycle[cl] && s.rot {
+				c.Count("fine_lines_after_cycle_in_current_file", 1)
+			}
+			if cl.line <= lastLine[cl.file] {
+				dd := detail()
+				dd["call"] = cl.brief()
+				c.Fail("FileLogger:order", "a later call's line precedes an earlier call's line in the same file", dd)
+			}
+			lastLine[cl.file] = cl.line
 		}
+		judged = len(calls)
+	}
 
-		curDay := day0
-		if len(visited) > 1 {
+	curDay := day0
+	if len(visited) > 1 {
+		curDay = -1
+	}
+	// one step: optional clock move, optional lines before the cycle, cycle, lines, verdicts
+	doStep := func(kind string, target int64, between bool) {
+		pre, _ := readDirFiles(s.logs)
+		from := vnow()
+		visit(from)
+		moved := target >= 0
+		if moved {
+			setVirtual(target)
+			visit(target)
+			if target < from {
+				hadBack = true
+			}
+		}
+		nB := 0
+		if between {
+			nB = r.Range(1, 3)
+			batch(nB)
+		}
+		cb := vnow()
+		visit(cb)
+		s.fl.VerifCycle()
+		ca := vnow()
+		visit(ca)
+		cycles++
+		prior := visitedDays()
+		decisive := dayOf(cb) == dayOf(ca)
+		D := dayOf(ca)
+		if decisive {
+			visited = map[int64]bool{D: true}
+		} else {
+			c.Count("fine_cycles_spanning_midnight", 1)
+		}
+		snapA, _ := readDirFiles(s.logs)
+		nC := r.Range(1, 5)
+		batch(nC)
+		files, _ = readDirFiles(s.logs)
+		st := map[string]interface{}{"kind": kind, "vclock_before_step": from, "date_before_step": ymdOf(from), "vclock_at_cycle": cb,
+			"date_at_cycle": ymdOf(ca), "lines_between_step_and_cycle": nB, "lines_after_cycle": nC, "file_after_cycle": name(D)}
+		if moved {
+			st["step_ms"], st["vclock_target"], st["step_class"] = target-from, target, stepClass(target-from)
+		}
+		stepLog = append(stepLog, st)
+
+		// after the cycle the file of the current virtual date exists
+		if decisive {
+			if _, ok := snapA[name(D)]; !ok {
+				c.Fail(rotKey(), fmt.Sprintf("after the cycle on %s the file %q does not exist", ymdOfDay(D), name(D)), detail())
+			} else if s.rot {
+				tracked[name(D)] = D
+			}
+		}
+		// no file loses earlier content
+		for _, nm := range sortedKeys(pre) {
+			if now, ok := snapA[nm]; ok && !strings.HasPrefix(now, pre[nm]) {
+				dd := detail()
+				dd["file"] = nm
+				c.Fail(rotKey(), fmt.Sprintf("file %q was rewritten (its earlier content is no longer a prefix)", nm), dd)
+			}
+		}
+		// files of other days are frozen once the cycle has returned
+		cur := map[string]bool{}
+		for _, nm := range allowedNames() {
+			cur[nm] = true
+		}
+		for _, nm := range sortedKeys(snapA) {
+			if cur[nm] {
+				continue
+			}
+			if now, ok := files[nm]; ok && now != snapA[nm] {
+				dd := detail()
+				dd["file"], dd["appended_after_cycle"] = nm, clip(strings.TrimPrefix(now, snapA[nm]), 300)
+				c.Fail(rotKey(), fmt.Sprintf("file %q of another day changed after the cycle had returned", nm), dd)
+			} else if ok {
+				c.Count("fine_other_day_files_unchanged_after_cycle", 1)
+			}
+		}
+		// own dated files: gone only if older than keep-days at some visited date
+		days := append(prior, visitedDays()...)
+		var tnames []string
+		for nm := range tracked {
+			tnames = append(tnames, nm)
+		}
+		sort.Strings(tnames)
+		for _, nm := range tnames {
+			if _, ok := files[nm]; ok {
+				continue
+			}
+			may := false
+			for _, v := range days {
+				if expired(v - tracked[nm]) {
+					may = true
+				}
+			}
+			if !may {
+				dd := detail()
+				dd["file"], dd["age_days"] = nm, D-tracked[nm]
+				c.Fail("FileLogger.clearOldLog:removed-foreign/own-recent", fmt.Sprintf("own file of age %d days removed with keep-days %d", D-tracked[nm], s.keep), dd)
+			} else {
+				c.Count("fine_old_file_expired_and_removed", 1)
+			}
+			delete(tracked, nm)
+		}
+		for _, f := range sortedKeys(files) {
+			if !everNames[f] {
+				c.Fail("FileLogger:wrong-file-name", fmt.Sprintf("unexpected file %q in logs", f), detail())
+			}
+		}
+		judge()
+		if decisive {
+			if construct && cycles == 1 && s.rot {
+				c.Count("construct_date_changed_after_creation_then_cycled", 1)
+				if procs1 {
+					c.Count("construct_date_changed_after_creation_then_cycled_one_P", 1)
+				}
+				c.SetAdd("construct_jump_classes", stepClass(jumpTo-(mid-d)))
+			}
+			if curDay >= 0 && D != curDay && s.rot {
+				cls := "natural"
+				if moved {
+					cls = stepClass(target - from)
+				}
+				if D < curDay {
+					c.Count("fine_backward_day_boundaries_crossed_then_cycled", 1)
+					c.SetAdd("fine_backward_step_classes", cls)
+				} else {
+					c.Count("fine_day_boundaries_crossed_then_cycled", 1)
+					c.SetAdd("fine_crossing_step_classes", cls)
+					if cls == "ms" || cls == "seconds" || cls == "under-60s" || cls == "about-60s" {
+						c.Count("fine_crossings_by_steps_up_to_one_minute", 1)
+					}
+				}
+			}
+			if curDay >= 0 && D == curDay {
+				c.Count("fine_cycles_without_date_change", 1)
+			}
+			curDay = D
+		} else {
 			curDay = -1
 		}
-		// one step: optional clock move, optional lines before the cycle, cycle, lines, verdicts
-		doStep := func(kind string, target int64, between bool) {
-			pre, _ := readDirFiles(s.logs)
-			from := vnow()
-			visit(from)
-			moved := target >= 0
-			if moved {
-				setVirtual(target)
-				visit(target)
-				if target < from {
-					hadBack = true
-				}
-			}
-			nB := 0
-			if between {
-				nB = r.Range(1, 3)
-				batch(nB)
-			}
-			cb := vnow()
-			visit(cb)
-			s.fl.VerifCycle()
-			ca := vnow()
-			visit(ca)
-			cycles++
-			prior := visitedDays()
-			decisive := dayOf(cb) == dayOf(ca)
-			D := dayOf(ca)
-			if decisive {
-				visited = map[int64]bool{D: true}
-			} else {
-				c.Count("fine_cycles_spanning_midnight", 1)
-			}
-			snapA, _ := readDirFiles(s.logs)
-			nC := r.Range(1, 5)
-			batch(nC)
-			files, _ = readDirFiles(s.logs)
-			st := map[string]interface{}{"kind": kind, "vclock_before_step": from, "date_before_step": ymdOf(from), "vclock_at_cycle": cb,
-				"date_at_cycle": ymdOf(ca), "lines_between_step_and_cycle": nB, "lines_after_cycle": nC, "file_after_cycle": name(D)}
-			if moved {
-				st["step_ms"], st["vclock_target"], st["step_class"] = target-from, target, stepClass(target-from)
-			}
-			stepLog = append(stepLog, st)
+	}
 
-			// after the cycle the file of the current virtual date exists
-			if decisive {
-				if _, ok := snapA[name(D)]; !ok {
-					c.Fail(rotKey(), fmt.Sprintf("after the cycle on %s the file %q does not exist", ymdOfDay(D), name(D)), detail())
-				} else if s.rot {
-					tracked[name(D)] = D
-				}
-			}
-			// no file loses earlier content
-			for _, nm := range sortedKeys(pre) {
-				if now, ok := snapA[nm]; ok && !strings.HasPrefix(now, pre[nm]) {
-					dd := detail()
-					dd["file"] = nm
-					c.Fail(rotKey(), fmt.Sprintf("file %q was rewritten (its earlier content is no longer a prefix)", nm), dd)
-				}
-			}
-			// files of other days are frozen once the cycle has returned
-			cur := map[string]bool{}
-			for _, nm := range allowedNames() {
-				cur[nm] = true
-			}
-			for _, nm := range sortedKeys(snapA) {
-				if cur[nm] {
-					continue
-				}
-				if now, ok := files[nm]; ok && now != snapA[nm] {
-					dd := detail()
-					dd["file"], dd["appended_after_cycle"] = nm, clip(strings.TrimPrefix(now, snapA[nm]), 300)
-					c.Fail(rotKey(), fmt.Sprintf("file %q of another day changed after the cycle had returned", nm), dd)
-				} else if ok {
-					c.Count("fine_other_day_files_unchanged_after_cycle", 1)
-				}
-			}
-			// own dated files: gone only if older than keep-days at some visited date
-			days := append(prior, visitedDays()...)
-			var tnames []string
-			for nm := range tracked {
-				tnames = append(tnames, nm)
-			}
-			sort.Strings(tnames)
-			for _, nm := range tnames {
-				if _, ok := files[nm]; ok {
-					continue
-				}
-				may := false
-				for _, v := range days {
-					if expired(v - tracked[nm]) {
-						may = true
-					}
-				}
-				if !may {
-					dd := detail()
-					dd["file"], dd["age_days"] = nm, D-tracked[nm]
-					c.Fail("FileLogger.clearOldLog:removed-foreign/own-recent", fmt.Sprintf("own file of age %d days removed with keep-days %d", D-tracked[nm], s.keep), dd)
-				} else {
-					c.Count("fine_old_file_expired_and_removed", 1)
-				}
-				delete(tracked, nm)
-			}
-			for _, f := range sortedKeys(files) {
-				if !everNames[f] {
-					c.Fail("FileLogger:wrong-file-name", fmt.Sprintf("unexpected file %q in logs", f), detail())
-				}
-			}
-			judge()
-			if decisive {
-				if curDay >= 0 && D != curDay && s.rot {
-					cls := "natural"
-					if moved {
-						cls = stepClass(target - from)
-					}
-					if D < curDay {
-						c.Count("fine_backward_day_boundaries_crossed_then_cycled", 1)
-						c.SetAdd("fine_backward_step_classes", cls)
-					} else {
-						c.Count("fine_day_boundaries_crossed_then_cycled", 1)
-						c.SetAdd("fine_crossing_step_classes", cls)
-						if cls == "ms" || cls == "seconds" || cls == "under-60s" || cls == "about-60s" {
-							c.Count("fine_crossings_by_steps_up_to_one_minute", 1)
-						}
-					}
-				}
-				if curDay >= 0 && D == curDay {
-					c.Count("fine_cycles_without_date_change", 1)
-				}
-				curDay = D
-			} else {
-				curDay = -1
-			}
-		}
-
+	if construct {
+		plan = append(plan, fmt.Sprint("newborn-jump:", jumpTo-mid, ":", procs1))
+		doStep("first-cycle-after-date-change-right-after-creation", -1, r.Chance(1, 3))
+	} else {
 		batch(r.Range(1, 5))
-		if lead > 0 {
-			// move to the start instant, with or without a cycle there
-			plan = append(plan, "to-start")
-			if r.Chance(1, 2) {
-				doStep("to-start-instant", mid-d, false)
-			} else if mid-d > vnow() {
-				visit(vnow())
-				setVirtual(mid - d)
-				visit(mid - d)
-				batch(r.Range(0, 2))
-			}
+	}
+	if lead > 0 {
+		// move to the start instant, with or without a cycle there
+		plan = append(plan, "to-start")
+		if r.Chance(1, 2) {
+			doStep("to-start-instant", mid-d, false)
+		} else if mid-d > vnow() {
+			visit(vnow())
+			setVirtual(mid - d)
+			visit(mid - d)
+			batch(r.Range(0, 2))
 		}
-		pendingCross := true
-		for st := 0; st < nSteps; st++ {
-			now := vnow()
-			nextMid := (dayOf(now) + 1) * dayMs
-			kind, target := "", int64(-1)
-			x := r.Intn(10)
-			if pendingCross {
-				x = 9
-			}
-			if (x == 6 || x == 7) && !allowBack {
-				x = 4
-			}
-			switch {
-			case x <= 3: // approach the next midnight, cross it with the following step
-				d2 := drawBeforeMidnight(r)
-				kind, target = "approach-midnight", nextMid-d2
-				if target <= now {
-					kind, target = "cycle-again", -1
-				}
-				pendingCross = true
-				plan = append(plan, fmt.Sprint("approach:", d2))
-			case x <= 5:
-				a := drawSmallAdvance(r)
-				kind, target = "small-step", now+a
-				plan = append(plan, fmt.Sprint("small:", a))
-			case x <= 7: // back across the most recent midnight (or several)
-				e := drawBeforeMidnight(r)
-				k := int64(pickInt(r, 0, 0, 0, 1, r.Range(1, 40)))
-				kind, target = "step-back-across-midnight", (dayOf(now)-k)*dayMs-e
-				pendingCross = r.Chance(2, 3)
-				plan = append(plan, fmt.Sprint("back:", k, ":", e))
-			case x == 8:
-				kind = "cycle-again"
-				plan = append(plan, "again")
-			default:
-				pendingCross = false
-				a := drawAdvance(r)
-				over := int64(pickInt(r, 0, 0, 1, 2, r.Range(3, 50), r.Range(1000, 10000), r.Range(10000, 59000), r.Range(60000, 600000)))
-				stay := r.Chance(1, 6)
-				kind, target = "step-across-midnight", now+a
-				if target < nextMid && !stay {
-					target = nextMid + over
-				}
-				plan = append(plan, fmt.Sprint("cross:", a, ":", over, ":", stay))
-			}
-			doStep(kind, target, target >= 0 && r.Chance(1, 3))
+	}
+	pendingCross := !construct
+	if construct {
+		nSteps--
+	}
+	for st := 0; st < nSteps; st++ {
+		now := vnow()
+		nextMid := (dayOf(now) + 1) * dayMs
+		kind, target := "", int64(-1)
+		x := r.Intn(10)
+		if pendingCross {
+			x = 9
 		}
+		if (x == 6 || x == 7) && !allowBack {
+			x = 4
+		}
+		switch {
+		case x <= 3: // approach the next midnight, cross it with the following step
+			d2 := drawBeforeMidnight(r)
+			kind, target = "approach-midnight", nextMid-d2
+			if target <= now {
+				kind, target = "cycle-again", -1
+			}
+			pendingCross = true
+			plan = append(plan, fmt.Sprint("approach:", d2))
+		case x <= 5:
+			a := drawSmallAdvance(r)
+			kind, target = "small-step", now+a
+			plan = append(plan, fmt.Sprint("small:", a))
+		case x <= 7: // back across the most recent midnight (or several)
+			e := drawBeforeMidnight(r)
+			k := int64(pickInt(r, 0, 0, 0, 1, r.Range(1, 40)))
+			kind, target = "step-back-across-midnight", (dayOf(now)-k)*dayMs-e
+			pendingCross = r.Chance(2, 3)
+			plan = append(plan, fmt.Sprint("back:", k, ":", e))
+		case x == 8:
+			kind = "cycle-again"
+			plan = append(plan, "again")
+		default:
+			pendingCross = false
+			a := drawAdvance(r)
+			over := int64(pickInt(r, 0, 0, 1, 2, r.Range(3, 50), r.Range(1000, 10000), r.Range(10000, 59000), r.Range(60000, 600000)))
+			stay := r.Chance(1, 6)
+			kind, target = "step-across-midnight", now+a
+			if target < nextMid && !stay {
+				target = nextMid + over
+			}
+			plan = append(plan, fmt.Sprint("cross:", a, ":", over, ":", stay))
+		}
+		doStep(kind, target, target >= 0 && r.Chance(1, 3))
+	}
+	if !construct {
 		c.Count("fine_scenarios", 1)
 		if hadBack {
 			c.Count("fine_scenarios_with_backward_step", 1)
 		}
-		c.Distinct(vlib.HashStr(fmt.Sprint(s.desc(), day0, d, lead, plan)))
-		if c.WantSample() && i%13 == 0 {
-			c.Sample(map[string]interface{}{"section": "rotation-fine", "logger": s.desc(), "created_on": ymdOfDay(day0),
-				"start_instant_ms_before_midnight": d, "steps": stepLog, "files_at_end": sortedKeys(files)})
-		}
-	})
+	}
+	c.Distinct(vlib.HashStr(fmt.Sprint(section, s.desc(), day0, d, lead, plan)))
+	if c.WantSample() && i%13 == 0 {
+		c.Sample(map[string]interface{}{"section": section, "logger": s.desc(), "created_on": ymdOfDay(day0),
+			"start_instant_ms_before_midnight": d, "steps": stepLog, "files_at_end": sortedKeys(files)})
+	}
 }
